@@ -13,8 +13,7 @@
    record: { "k": kind, "p": [mutations], "sw": 0 | 1 (1 = byte-level sweep inputs of
              one seed; no program), "sc": "gen"|"file", "cut": min bytes cut (0 = none),
              "n": inputs merged, "len": min input length,
-             "eps": [entry point names],
-             "g": [ { "e": [indexes into eps, 0-based], "m": mode, "os": [outcomes],
+             "g": [ { "e": [indexes into EpSeq[k], 0-based], "m": mode, "os": [outcomes],
                       "ms": max wall ms, "kib": max KiB allocated } ... ] }
    Outcomes logged by the harness: "ok", "err", "panic", "timeout", "fatal".
 
@@ -23,9 +22,13 @@
    <<"JUDGED", records>> at the end.                                      *)
 EXTENDS Inputs, Json
 
-CONSTANT ObsFile      \* name of the NDJSON file of observations (next to the module)
+CONSTANTS ObsFile,    \* name of the NDJSON file of observations (next to the module)
+          EpsFile     \* JSON object kind -> sequence of entry-point names: the order the
+                      \* group members "e" index into (written by the driver from the model
+                      \* export, so that the names are not repeated in every record)
 
 Obs == ndJsonDeserialize(ObsFile)
+EpSeq == JsonDeserialize(EpsFile)
 
 Reject(i, j, why, ep) == PrintT(<<"REJECT", i, j, why, ep>>)
 
@@ -34,7 +37,7 @@ SeqSet(s) == { s[x] : x \in DOMAIN s }
 JudgeGroup(i, rec, j) ==
   LET g == rec.g[j]
       os == SeqSet(g.os)
-      eps == { rec.eps[x + 1] : x \in SeqSet(g.e) }
+      eps == { EpSeq[rec.k][x + 1] : x \in SeqSet(g.e) }
       allowed(ep) == IF rec.sw > 0 THEN Outcomes ELSE Allowed(rec.k, rec.p, ep, rec.sc, rec.cut, rec.len)
   IN /\ (os \subseteq Outcomes \/ Reject(i, j, "outcome", "*"))
      /\ (g.ms <= TimeLimitMs \/ Reject(i, j, "time", "*"))
@@ -45,7 +48,7 @@ JudgeGroup(i, rec, j) ==
 
 (* every entry point of the kind was run in every mode: nothing is silently skipped *)
 Complete(rec) ==
-  UNION { { <<rec.eps[x + 1], rec.g[j].m>> : x \in SeqSet(rec.g[j].e) } : j \in DOMAIN rec.g }
+  UNION { { <<EpSeq[rec.k][x + 1], rec.g[j].m>> : x \in SeqSet(rec.g[j].e) } : j \in DOMAIN rec.g }
     = EntryPoints[rec.k] \X Modes
 
 JudgeRecord(i) ==
